@@ -41,6 +41,20 @@ def rand_relab(rng, kinds):
     if kind == 'swap':
         a = rng.randrange(nd - 1)
         return shape, 'RSwap %d' % a, np.ascontiguousarray(np.swapaxes(idx, a, a + 1)), {'kind': 'swap', 'axis': a}
+    if kind == 'perm':
+        # an arbitrary axis permutation (numpy transpose), decomposed into exchanges of neighbouring axes by a bubble sort
+        perm = list(range(nd))
+        rng.shuffle(perm)
+        cur, ks = list(range(nd)), []
+        for i in range(nd):                      # bring perm[i] to position i
+            j = cur.index(perm[i])
+            while j > i:
+                cur[j - 1], cur[j] = cur[j], cur[j - 1]
+                ks.append(j - 1)
+                j -= 1
+        assert cur == perm
+        return shape, 'RSwaps [%s]' % '; '.join('%d%%nat' % k for k in ks), np.ascontiguousarray(np.transpose(idx, perm)), \
+            {'kind': 'perm', 'axes': perm, 'exchanges': ks}
     a = rng.randint(0, nd)
     return shape, 'RUnit %d' % a, np.expand_dims(idx, a), {'kind': 'unit', 'axis': a}
 
